@@ -6,7 +6,7 @@
 From Coq Require Import ZArith NArith List Bool Lia.
 From Texel Require Import Chess.Types Chess.Position Chess.BitBoard Chess.MoveGen Chess.Spec Chess.MoveGenWF
   Chess.BitBoardProofs Chess.RayProofs Chess.MoveGenProofs Chess.AttackProofs Chess.SliderProofs Chess.PawnProofs
-  Chess.PseudoProofs gen.BitBoardTables.
+  Chess.PseudoProofs Chess.PositionSpec Chess.ShortcutProofs gen.BitBoardTables.
 Import ListNotations.
 Local Open Scope N_scope.
 
@@ -476,3 +476,11 @@ Proof. exact pseudoLegalMoves_NoDup. Qed.
 (** non-vacuity: kiwipete's 48 pseudo-legal moves are pairwise distinct *)
 Example kiwipete_nodup : WF kiwipete /\ length (pseudoLegalMoves kiwipete) = 48%nat /\ NoDup (pseudoLegalMoves kiwipete).
 Proof. split; [vm_compute; reflexivity | split; [vm_compute; reflexivity | apply nodup_all; vm_compute; reflexivity]]. Qed.
+
+(** hence the list of legal moves computed by removeIllegal has no duplicates either *)
+Theorem nodup_legal : forall zk p, emptyKeysZero zk -> WF p -> Consistent zk p ->
+  NoDup (snd (removeIllegal zk p (pseudoLegalMoves p))).
+Proof.
+  intros zk p E H C. destruct (legal_exact zk p E H C) as [_ [Eq _]]. rewrite Eq.
+  apply NoDup_filter. apply nodup_all. exact H.
+Qed.
